@@ -90,26 +90,27 @@ Section Sniff.
     - cbn [nth]. vm_compute. reflexivity.
   Qed.
 
-  (* the decoder entries: same verdict as the sniffer unless the length is a bypass size *)
-  Theorem entry_sniff_agrees ty bytes :
-    let '(a, b) := lookup_bypass ty src_bypass_sizes in
-    Z.of_nat (length bytes) <> a -> Z.of_nat (length bytes) <> b ->
-    entry_sniff zstd_frame ty bytes = sniff zstd_frame bytes.
+  (* the decoder entries give the sniffer's verdict for every stream of every length *)
+  Theorem entry_sniff_agrees ty bytes : src_entry_resniffs = true -> entry_sniff zstd_frame ty bytes = sniff zstd_frame bytes.
   Proof.
-    unfold entry_sniff. destruct (lookup_bypass ty src_bypass_sizes) as [a b]. intros Ha Hb.
-    destruct (Z.eqb_spec (Z.of_nat (length bytes)) a); [contradiction|].
-    destruct (Z.eqb_spec (Z.of_nat (length bytes)) b); [contradiction|]. reflexivity.
+    intro R. unfold entry_sniff. rewrite R. destruct (lookup_bypass ty src_bypass_sizes) as [a b].
+    destruct (negb _) eqn:E1; cbn [orb andb]; [reflexivity|].
+    destruct (sniff zstd_frame bytes =? NONE) eqn:E2; cbn [negb]; [apply Z.eqb_eq in E2; symmetry; exact E2|reflexivity].
   Qed.
 
-  (* ... and at a bypass size a wrapped stream is taken for an unwrapped one (the full statement
-     "every wrapped stream is classified as wrapped" is refuted at exactly these lengths) *)
+  (* before the repair a wrapped stream with the length of a constant stream was taken for an unwrapped one *)
   Theorem entry_sniff_bypass_refuted ty bytes :
     let '(a, b) := lookup_bypass ty src_bypass_sizes in
-    zstd_frame bytes = true -> Z.of_nat (length bytes) = a -> entry_sniff zstd_frame ty bytes = NONE.
+    zstd_frame bytes = true -> Z.of_nat (length bytes) = a -> entry_sniff_old zstd_frame ty bytes = NONE.
   Proof.
-    unfold entry_sniff. destruct (lookup_bypass ty src_bypass_sizes) as [a b]. intros _ Ha. rewrite Ha, Z.eqb_refl. reflexivity.
+    unfold entry_sniff_old. destruct (lookup_bypass ty src_bypass_sizes) as [a b]. intros _ Ha. rewrite Ha, Z.eqb_refl. reflexivity.
   Qed.
 End Sniff.
+
+(* with the fact read from the source (all ten entries re-examine constant-stream lengths) *)
+Theorem entry_sniff_full : forall zstd_frame ty bytes, entry_sniff zstd_frame ty bytes = sniff zstd_frame bytes.
+Proof. intros. apply entry_sniff_agrees. vm_compute. reflexivity. Qed.
+
 
 (* the bypass sizes in the ten decoder entries are exactly the constant-stream sizes they are meant for *)
 Theorem bypass_sizes_are_const_stream_sizes :
